@@ -124,7 +124,7 @@ def validate_traces(runs, v):
                 f.write(json.dumps(e) + "\n")
                 index.append((rid, k))
     r = vlib.tlc("Trace_Fibers", "Trace_Fibers", env={"TRACE": path}, workers=1, deque=True, timeout=3000, heap="8g")
-    os.remove(path)
+    vlib.drop_trace(path, "fibers")
     if "NOT_CONSUMED" in r["out"] or r["distinct"] == 0 or "is violated" in r["out"]:
         raise vlib.ToolError("trace validation did not complete:\n" + r["out"][-2000:])
     v.cov["states"] += r["distinct"]
